@@ -1,18 +1,23 @@
 """C07 — no heap allocation in steady state (partial by nature: see DESIGN §6/C07).
 What is logic is proved in Coq (coq/props/C07.v: storage of both ring buffers never changes size under
-any history; a growable vector driven by a fixed push/pop/clear script stops reallocating after the
-first run — the processor's steady state).  Allocator behaviour itself cannot be exhibited by a Coq
-model; it is OBSERVED: a counting GlobalAlloc around the allocation-free API surface (67 scenarios,
-each constructed, warmed up once, then run K more times with varied inputs)."""
+any history; the capacity trace of the modelled dasp_graph::process — the C09 stack machine with every
+stack/inputs/bit-set operation accounted on (len, cap) vectors — reaches a steady state after one call).
+Allocator behaviour itself cannot be exhibited by a Coq model; it is OBSERVED: a counting GlobalAlloc
+around the allocation-free API surface (90 scenarios, each constructed, warmed up once, then run K more
+times, under each of 5 input VALUE FAMILIES: plain, wide dynamic range, finite special values, non-finite,
+ramps; a third of the scenarios are aimed at one data-dependent branch each and report how often it was taken).  The capacity model of the graph processor is additionally TIED to the crate:
+its executable definitions (Alloc/CapsRun.v) are evaluated by coqc on build-and-process scripts and the
+predicted stack/inputs capacities and the heap traffic of every call are compared with
+Processor::verif_capacities() and the counting allocator."""
 import json, os
 import framework as F
 
 PROP = "C07"
 META = dict(
     category="other",
-    technique="Coq size/capacity theorems (ring-buffer storage constant, vector steady state) + counting-allocator observation of the API surface",
-    text="Coq proves the logical half (12 theorems): every history of Bounded/Fixed operations leaves the backing storage length unchanged (corollary of the C06 refinement); the bus backlog length equals the maximum lag over live outputs and, under lock-step pulling with drops/re-attachments between rounds, is empty at every round boundary and never exceeds one frame (corollaries of the C13 model); the push/pop/clear scripts that one Processor::process call applies to its DFS stack and inputs vectors are a function of (graph, output node) only and faithful to the C09 traversal model, so after ONE call every further call on the same graph reallocates neither vector (any multigraph, no size bound), with high-water marks 1+|V|+|E| and max in-degree, and with_capacity covering them never reallocates. That an operation performs no allocation is a runtime fact no Coq model can exhibit; it is observed with a counting GlobalAlloc over 67 scenarios covering sample/frame/slice/ring-buffer/peak/RMS/envelope/interpolation/window/signal sources and adaptors/fork/buffered/converter/windower/graph processing with stock nodes, with the documented exceptions (bus, by_rc creation, boxed conversions) checked for boundedness/balance instead. This is labelled 'other', not proof.",
-    note="Trusted: Coq kernel for the capacity theorems; for the allocator half the harness's scenario list is the coverage: an allocation reachable only through an API call or input class the scenarios do not exercise is missed. petgraph/std Vec growth is modelled only as (len, cap).",
+    technique="Coq size/capacity theorems (ring-buffer storage constant, capacity trace of the modelled graph processor) + coqc-evaluated capacity model vs Processor::verif_capacities() + counting-allocator observation of the API surface",
+    text="Coq proves the logical half (23 theorems): every history of Bounded/Fixed operations leaves the backing storage length unchanged (corollary of the C06 refinement); the bus backlog length equals the maximum lag over live outputs and, under lock-step pulling with drops/re-attachments between rounds, is empty at every round boundary and never exceeds one frame (corollaries of the C13 model); the push/pop/clear scripts that one Processor::process call applies to its DFS stack and inputs vectors are a function of (graph, output node) only and faithful to the C09 traversal model, so after ONE call every further call on the same graph reallocates neither vector (any multigraph, no size bound), with high-water marks 1+|E| (tight) and max in-degree, and with_capacity covering them never reallocates; the same on the capacity trace of the modelled process itself (the C09 traversal with the DFS stack, the inputs list and the FixedBitSet block vectors as (len, cap) pairs): a second call from the same node on any graph of the same shape changes no capacity, a call from any node of any graph whose needs are within what is reserved changes none either, while the reading 'from any node of a graph of that size' is refuted by a witness (a first call from a shallow node, then one from a deep node grows the stack) that the check reproduces on the crate through Processor::verif_capacities(). The capacity model is tied to the crate by running it inside coqc on random build-and-process scripts (Graph and StableGraph, removals, growth between calls, one processor per script) and comparing, after every call, both capacities and the number of allocations+reallocations and of frees of that call. That an operation performs no allocation is a runtime fact no Coq model can exhibit; it is observed with a counting GlobalAlloc over 90 scenarios, each run under 5 input value families (plain, wide dynamic range, finite special values, NaN/inf, ramps) and a third of them designed to enter one rarely taken data-dependent branch each (RMS clamp, envelope attack/release, converter multi-frame advance and exhaustion, sinc priming, clipping on both sides, ring full/empty/wrap, windower edge schedules, ...; which source regions the runs enter is measured with llvm coverage and recorded in the evidence), covering sample/frame/slice/ring-buffer/peak/RMS/envelope/interpolation/window/signal sources and adaptors/fork/buffered/converter/windower/graph processing with stock nodes, with the documented exceptions (bus, by_rc creation, boxed conversions) checked for boundedness/balance instead. This is labelled 'other', not proof.",
+    note="Trusted: Coq kernel for the capacity theorems; for the allocator half the harness's scenario list is the coverage: an allocation reachable only through an API call or input class the scenarios do not exercise is missed (docs/coverage/C07_regions.json lists the source regions of the anchored files that no scenario enters). petgraph/std Vec growth is modelled as (len, cap) with std's amortised rule cap' = max(4, 2*cap, needed), validated by the capacity correspondence only.",
     design="6/C07")
 
 ZERO = ["sample_conv", "sample_amp", "frame_ops2", "frame_ops32", "slice_views", "slice_ops",
@@ -25,7 +30,332 @@ ZERO = ["sample_conv", "sample_amp", "frame_ops2", "frame_ops32", "slice_views",
         "fork_by_ref", "fork_by_rc_steady", "buffered_next", "buffered_frames", "sig_rms", "sig_env",
         "graph_stable", "graph_nested",
         "ring_bounded_index", "ring_bounded_raw", "frame_channels_mut", "interp_direct", "lift", "conv_source_access",
-        "rectifier_structs", "window_direct", "slice_trait_forms", "graph_node_shapes"]
+        "rectifier_structs", "window_direct", "slice_trait_forms", "graph_node_shapes",
+        # round 3: inputs designed per data-dependent branch / entry points the coverage report listed as never reached
+        "rms_clamp", "rms_clamp_adaptors", "env_attack_release", "conv_ratio_steps", "conv_exhaustion", "sinc_priming",
+        "clip_both_sides", "bounded_full_wrap", "windower_edges", "graph_node_edge_cases", "osc_shapes",
+        "exhaustion_queries", "consume_parts", "fork_rc_schedules", "slice_all_forms", "frame_iters_mono",
+        "sample_all_formats", "custom_int_types", "debug_fmt", "size_sweep"]
+
+# value families of the scenario inputs (4th token of a harness line; harness/src/bin/c07.rs, `struct R`)
+FAMILIES = ["plain", "dynrange", "edges", "nonfinite", "ramps"]
+
+# scenarios aimed at one data-dependent branch report, after the three counters, how often that branch was
+# demonstrably taken (witnesses); recorded in the evidence, and a NOTE is printed if one of them is 0 in every run
+WITNESS = {
+    "rms_clamp": ["f32 window: next_squared returned exactly 0 although the window holds a non-zero square (clamp branch)",
+                  "f64 Vec window: same", "i16 frames: same"],
+    "rms_clamp_adaptors": ["signal.rms(): output exactly 0 inside a non-silent window"],
+    "env_attack_release": ["envelope rose (attack gain used)", "envelope fell (release gain used)"],
+    "conv_ratio_steps": ["rounds"],
+    "conv_exhaustion": ["is_exhausted() true", "is_exhausted() false"],
+    "clip_both_sides": ["clipped at +thresh", "clipped at -thresh", "passed unclipped"],
+    "bounded_full_wrap": ["push on a full ring evicted", "pop on an empty ring", "get beyond len -> None", "get_mut beyond len -> None"],
+    "bus_catch_up": ["max backlog", "end backlog", "rounds with no output exhausted"],
+    "bus_finite_source": ["max backlog", "end backlog", "is_exhausted() true"],
+    "windower_edges": ["size_hint upper bound None (hop = 0)", "size_hint (0, Some(0)) (no chunk fits)", "size hint exact"],
+    "graph_node_edge_cases": ["bytes of Debug output"],
+    "osc_shapes": ["square high half", "square low half"],
+    "exhaustion_queries": ["is_exhausted() true", "is_exhausted() false"],
+    "fork_rc_schedules": ["B had frames pending after A led", "A had frames pending after B led"],
+    "slice_all_forms": ["length divisible into frames"],
+    "frame_iters_mono": ["from_samples with too few samples -> None"],
+    "debug_fmt": ["bytes of Debug output"],
+}
+
+
+# ---------------------------------------------------------------------------
+# capacity correspondence: Alloc/CapsRun.v (the capacity trace of the modelled process, evaluated by
+# coqc) against Processor::verif_capacities() and the counting allocator (harness mode `caps`)
+HEADER = "From Dasp Require Import Alloc.CapsRun."
+CHECK = "check"
+
+
+def caps_build(item, ops=None):
+    it = dict(item)
+    if ops is not None:
+        it["ops"] = ops
+    it["line"] = f"caps {'S' if it['stable'] else 'G'} {it['cap0']} ; " + " , ".join(" ".join(str(t) for t in o) for o in it["ops"])
+    z = F.zlit
+    cop = {"N": lambda a: "CN", "E": lambda a: f"CE {z(a[0])} {z(a[1])}", "R": lambda a: f"CR {z(a[0])}", "P": lambda a: f"CP {z(a[0])}"}
+    it["coq"] = f"({z(it['cap0'])}, [" + "; ".join(cop[o[0]](o[1:]) for o in it["ops"]) + "])"
+    return it
+
+
+class Shape:
+    """python mirror of the container bookkeeping, used only to GENERATE valid scripts (never as an oracle)"""
+
+    def __init__(self):
+        self.live, self.free, self.edges = [], [], []
+
+    def add_node(self):
+        if self.free:
+            i = self.free.pop(0)
+            self.live[i] = True
+        else:
+            i = len(self.live)
+            self.live.append(True)
+        return i
+
+    def remove(self, a):
+        self.live[a] = False
+        self.free.insert(0, a)
+        self.edges = [e for e in self.edges if a not in e]
+
+    def nodes(self):
+        return [i for i, l in enumerate(self.live) if l]
+
+
+def caps_valid(it):
+    sh = Shape()
+    for o in it["ops"]:
+        if o[0] == "N":
+            sh.add_node()
+        elif o[0] == "E":
+            if not (o[1] < len(sh.live) and o[2] < len(sh.live) and sh.live[o[1]] and sh.live[o[2]]):
+                return False
+            sh.edges.append((o[1], o[2]))
+        elif o[0] == "R":
+            if not it["stable"] or not (o[1] < len(sh.live) and sh.live[o[1]]):
+                return False
+            sh.remove(o[1])
+        elif o[0] == "P":
+            if not (o[1] < len(sh.live) and sh.live[o[1]]):
+                return False
+    return True
+
+
+def add_edges(r, sh, ops, style, ne):
+    ns = sh.nodes()
+    if len(ns) == 0:
+        return
+    for _ in range(ne):
+        a, b = r.choice(ns), r.choice(ns)
+        if style == "dag":
+            if a == b:
+                continue
+            a, b = min(a, b), max(a, b)
+        elif style == "rdag":      # edges from larger to smaller index
+            if a == b:
+                continue
+            a, b = max(a, b), min(a, b)
+        elif style == "multi" and sh.edges and r.chance(1, 2):
+            a, b = r.choice(sh.edges)      # a parallel edge
+        sh.edges.append((a, b))
+        ops.append(("E", a, b))
+
+
+def caps_case(r, tier):
+    stable = r.chance(1, 2)
+    style = r.choice(["dag", "dag", "rdag", "cyclic", "multi", "chain", "fan", "tournament", "layers"])
+    big = tier == "thorough" and r.chance(1, 4)
+    n = r.range(1, 60 if big else 24)
+    sh, ops = Shape(), []
+    for _ in range(n):
+        sh.add_node()
+        ops.append(("N",))
+    if style == "chain":
+        order = list(range(n))
+        if r.chance(1, 2):
+            order.reverse()
+        for a, b in zip(order, order[1:]):
+            sh.edges.append((a, b)); ops.append(("E", a, b))
+    elif style == "fan":
+        hub = r.below(n)
+        for a in range(n):
+            if a != hub or r.chance(1, 4):
+                for _ in range(1 + (1 if r.chance(1, 5) else 0)):
+                    sh.edges.append((a, hub)); ops.append(("E", a, hub))
+    elif style == "tournament":
+        n = min(n, 9)
+        es = [(a, b) for b in range(n) for a in range(b)]
+        if r.chance(1, 2):
+            es.reverse()
+        for a, b in es:
+            sh.edges.append((a, b)); ops.append(("E", a, b))
+    elif style == "layers":
+        w = r.range(1, 4)
+        for b in range(w, n):
+            for a in range(b - b % w - w, b - b % w):
+                if a >= 0 and r.chance(3, 4):
+                    sh.edges.append((a, b)); ops.append(("E", a, b))
+    else:
+        add_edges(r, sh, ops, style, r.range(0, 3 * n if not big else 2 * n))
+    if stable and r.chance(1, 2) and len(sh.nodes()) > 1:
+        for _ in range(r.range(1, 3)):
+            if len(sh.nodes()) > 1:
+                a = r.choice(sh.nodes())
+                sh.remove(a); ops.append(("R", a))
+    nn = max(1, len(sh.nodes()))
+    cap0 = r.choice([0, 0, 1, 2, 3, 4, 4, 5, 8, 16, nn, nn, nn + 1, 1 + len(sh.edges), nn + len(sh.edges) + 1, 64])
+    ncalls = r.range(2, 8)
+    changed = False
+    for c in range(ncalls):
+        ns = sh.nodes()
+        if not ns:
+            break
+        k = r.below(10)
+        if k == 0 and c > 0:           # the graph grows between calls
+            i = sh.add_node(); ops.append(("N",))
+            add_edges(r, sh, ops, "cyclic" if style in ("cyclic", "multi") else "dag", r.range(1, 4))
+            changed = True
+        elif k == 1 and c > 0 and stable and len(ns) > 1:
+            a = r.choice(ns)
+            sh.remove(a); ops.append(("R", a))
+            changed = True
+        ns = sh.nodes()
+        m = r.below(6)
+        if m == 0:
+            o = min(ns)
+        elif m == 1:
+            o = max(ns)
+        elif m == 2 and c > 0:
+            o = [x for x in ops if x[0] == "P"][-1][1]
+            o = o if o in ns else r.choice(ns)
+        else:
+            o = r.choice(ns)
+        ops.append(("P", o))
+    return dict(kind=style + ("+changes" if changed else ""), stable=stable, cap0=cap0, ops=ops)
+
+
+def caps_bitset_case(r):
+    """more than 128 nodes reached in two steps: the FixedBitSet block vectors (first allocation: 4 blocks =
+    128 bits) are reallocated by the reset of a later call"""
+    stable = r.chance(1, 2)
+    sh, ops = Shape(), []
+    n0 = r.range(60, 128)
+    for _ in range(n0):
+        sh.add_node(); ops.append(("N",))
+    add_edges(r, sh, ops, "dag", r.range(n0 // 2, n0))
+    ops.append(("P", r.choice(sh.nodes())))
+    ops.append(("P", max(sh.nodes())))
+    for _ in range(r.range(129 - n0, 200 - n0)):
+        sh.add_node(); ops.append(("N",))
+    add_edges(r, sh, ops, "dag", r.range(10, 60))
+    o = max(sh.nodes())
+    ops += [("P", o), ("P", o), ("P", r.choice(sh.nodes()))]
+    return dict(kind="bitset-regrow+changes", stable=stable, cap0=r.choice([0, 4, 64, 256]), ops=ops)
+
+
+def caps_corpus():
+    d = os.path.join(F.VERIF, "corpus", PROP)
+    items = []
+    if os.path.isdir(d):
+        for fn in sorted(os.listdir(d)):
+            if fn.endswith(".json"):
+                c = json.load(open(os.path.join(d, fn)))
+                c["ops"] = [tuple(o) for o in c["ops"]]
+                c["corpus_file"] = fn
+                items.append(caps_build(c))
+    return items
+
+
+def caps_cases(rng, tier):
+    items = caps_corpus()
+    nrand = 1500 if tier == "quick" else 4000
+    for i in range(nrand):
+        items.append(caps_build(caps_case(rng.fork(f"caps{i}"), tier)))
+    for i in range(8 if tier == "quick" else 40):
+        items.append(caps_build(caps_bitset_case(rng.fork(f"capsbits{i}"))))
+    return items
+
+
+def caps_stats(items, outl):
+    """classification of the observed traces (the model has already been compared with them)"""
+    st = {"cases": len(items), "process_calls": 0, "calls_that_grew_a_capacity": 0, "calls_with_heap_traffic": 0,
+          "frees": 0, "same_node_repeat_calls": 0, "same_node_repeat_calls_with_heap_traffic": 0,
+          "later_call_other_node_unchanged_graph_grew": 0, "cases_with_later_growth_on_unchanged_graph": 0,
+          "first_call_grew_stack_beyond_with_capacity_of_node_count": 0,
+          "style": {}, "cap0": {}, "container": {"Graph": 0, "StableGraph": 0}, "nodes": {}, "calls_per_case": {}}
+    nontrivial = set()
+    for it, o in zip(items, outl):
+        st["style"][it["kind"]] = st["style"].get(it["kind"], 0) + 1
+        c0 = it["cap0"]
+        ck = "0" if c0 == 0 else ("1-3" if c0 < 4 else ("4" if c0 == 4 else ("5-8" if c0 <= 8 else ("9-16" if c0 <= 16 else ">16"))))
+        st["cap0"][ck] = st["cap0"].get(ck, 0) + 1
+        st["container"]["StableGraph" if it["stable"] else "Graph"] += 1
+        nb = sum(1 for x in it["ops"] if x[0] == "N")
+        key = "<=4" if nb <= 4 else ("<=12" if nb <= 12 else ("<=24" if nb <= 24 else ">24"))
+        st["nodes"][key] = st["nodes"].get(key, 0) + 1
+        try:
+            obs = F.parse_obs_line(o)
+        except ValueError:
+            continue
+        calls = [x for x in it["ops"] if x[0] == "P"]
+        st["calls_per_case"][str(len(calls))] = st["calls_per_case"].get(str(len(calls)), 0) + 1
+        if len(obs) != len(calls):
+            continue
+        prev, prev_caps, changed_since, later = None, (it["cap0"], it["cap0"]), False, False
+        ci = 0
+        sh = Shape()
+        for x in it["ops"]:
+            if x[0] == "N":
+                sh.add_node()
+                changed_since = True
+            elif x[0] == "E":
+                sh.edges.append((x[1], x[2]))
+                changed_since = True
+            elif x[0] == "R":
+                sh.remove(x[1])
+                changed_since = True
+            else:
+                sc, ic, da, dd = obs[ci]
+                st["process_calls"] += 1
+                grew = (sc, ic) != prev_caps
+                st["calls_that_grew_a_capacity"] += 1 if grew else 0
+                st["calls_with_heap_traffic"] += 1 if da else 0
+                st["frees"] += dd
+                if ci == 0 and it["cap0"] == len(sh.nodes()) and sc > it["cap0"]:
+                    st["first_call_grew_stack_beyond_with_capacity_of_node_count"] += 1
+                if ci > 0 and not changed_since:
+                    if x[1] == prev:
+                        st["same_node_repeat_calls"] += 1
+                        st["same_node_repeat_calls_with_heap_traffic"] += 1 if da else 0
+                    elif grew:
+                        st["later_call_other_node_unchanged_graph_grew"] += 1
+                        later = True
+                prev, prev_caps, changed_since = x[1], (sc, ic), False
+                ci += 1
+        if later:
+            st["cases_with_later_growth_on_unchanged_graph"] += 1
+        if len({c[1] for c in calls}) >= 2 or "+changes" in it["kind"] or later:
+            nontrivial.add(it["line"])
+    return st, len(nontrivial)
+
+
+def caps_phase(rep, binpath, rng, tier):
+    items = caps_cases(rng, tier)
+    outl, bad, errors = F.correspond(binpath, items, HEADER, CHECK, "c07caps")
+    for name, msg in errors:
+        rep.violation("caps_correspondence_error_" + name.replace("/", "_"), {"kind": "capacity correspondence could not be evaluated", "where": name, "log": msg}, no_input=True)
+
+    def fails(c):
+        if not caps_valid(c):
+            return False
+        o, b, e = F.correspond(binpath, [c], HEADER, CHECK, "c07caps_shrink")
+        return bool(b) and not e
+
+    for idx in bad[:3]:
+        small = F.shrink_ops(items[idx], caps_build, fails, max_steps=40)
+        rc, out, _ = F.run_bin(binpath, [small["line"]])
+        _, model = F.coq_eval("c07caps", HEADER, f"run_case {small['coq']}")
+        rep.violation(f"caps_case{idx}", {
+            "kind": "model/implementation disagreement: the capacities or the heap traffic of a Processor::process call differ from the proved capacity model's prediction",
+            "case": {k: small[k] for k in ("kind", "stable", "cap0", "ops")}, "harness_line": small["line"],
+            "implementation_observations (per call: stack cap, inputs cap, allocs+reallocs, frees)": out,
+            "model_observations": model[-3000:], "original_case_index": idx,
+            "replay": "./check.py C07 --replay <this file>"})
+    if errors or len(outl) != len(items):
+        return items, [], {}, 0, bad
+    st, nontriv = caps_stats(items, outl)
+    # the two refuted readings must be reproduced on the crate by the corpus witnesses
+    for it, o in zip(items, outl):
+        if it.get("corpus_file") and it.get("expect"):
+            if F.parse_obs_line(o) != it["expect"]:
+                rep.violation("caps_witness_" + it["corpus_file"].replace(".json", ""), {
+                    "kind": "a recorded capacity witness no longer reproduces on the crate (the finding it documents may have been repaired: update corpus/C07 and the _refuted theorem)",
+                    "case": it["corpus_file"], "expected": it["expect"], "observed": o, "harness_line": it["line"]}, no_input=True)
+    return items, outl, st, nontriv, bad
 
 
 def verdict(name, k, v):
@@ -65,24 +395,87 @@ def verdict(name, k, v):
         if maxb > 1 or endb > 1:
             return f"bus backlog grows across re-attachments although outputs are pulled in step: max {maxb}, end {endb}"
         return None
+    if name in ("bus_catch_up", "bus_finite_source"):
+        # the bus may allocate (documented exception); what is required is that the backlog never exceeds the largest
+        # lag the schedule creates (12 frames / 4 frames) and is back to (at most) the standing lag at the end
+        maxb, endb = v[3], v[4]
+        bound, endbound = (12, 1) if name == "bus_catch_up" else (5, 5)
+        if maxb > bound or endb > endbound:
+            return f"bus backlog grew beyond the slowest lag: max {maxb} (bound {bound}), end {endb} (bound {endbound})"
+        return None
     if name in ("bus_lockstep", "bus_laggard"):
         maxb, endb = v[3], v[4]
         bound = 1 if name == "bus_lockstep" else 5
         if maxb > bound or endb > bound:
             return f"bus backlog grew beyond the slowest lag: max {maxb}, end {endb}, bound {bound}"
         return None
-    if name in ("boxed_slice_ok", "boxed_slice_fail"):
+    if name in ("boxed_slice_ok", "boxed_slice_fail", "boxed_slice_forms"):
         # one Vec allocation per iteration made by the scenario itself; must be balanced (no leak, no extra)
         return None if (a, r, d) == (k, 0, k) else f"boxed conversion not allocation-neutral: {a} allocs, {r} reallocs, {d} deallocs over {k} iterations"
     return f"unknown scenario {name}"
 
 
+def minimise(binpath, n, k, s, fi):
+    """smallest number of measured calls that still gives a bad verdict (the counters only grow with the number of
+    calls and a run is a function of its line, so bisection applies); the shrunk line is the concrete failing input"""
+    def bad_at(kk):
+        rc, out, _ = F.run_bin(binpath, [f"{n} {kk} {s} {fi}"])
+        try:
+            v = [int(t) for t in out[0].replace("HARNESS-PANIC", "").split()]
+        except (ValueError, IndexError):
+            v = [-3]
+        return verdict(n, kk, v), (out[0] if out else "")
+    lo, hi = 0, k           # invariant: bad at hi, fine (or untested) at lo
+    try:
+        while hi - lo > 1:
+            mid = (lo + hi) // 2
+            b, _ = bad_at(mid)
+            if b:
+                hi = mid
+            else:
+                lo = mid
+        b, o = bad_at(hi)
+        return {"minimised": {"harness_line": f"{n} {hi} {s} {fi}", "calls": hi, "observed": o, "problem": b,
+                              "meaning": f"the first {hi - 1} measured calls show nothing wrong; measured call number {hi} does"}}
+    except Exception as e:      # the shrink is a convenience, never a reason to lose the violation
+        return {"minimised": {"error": str(e)}}
+
+
+def report_bad(rep, binpath, badruns, profile):
+    """one violation per scenario: the first failing run (fewest calls, then family, then seed), shrunk to the smallest
+    number of calls that still fails, with the other failing runs of the same scenario listed in the replay file"""
+    for i, (n, runs) in enumerate(badruns.items()):
+        line, o, bad = runs[0]
+        _, k, s, fi = line.split()
+        payload = {"kind": "heap traffic in steady state" + ("" if profile == "dev" else f" ({profile} profile)"),
+                   "scenario": n, "calls": int(k), "seed": int(s), "family": int(fi), "family_name": FAMILIES[int(fi)],
+                   "profile": profile, "harness_line": line, "observed": o, "problem": bad,
+                   "replay": f"echo '{line}' | harness/target/{'debug' if profile == 'dev' else profile}/c07",
+                   "failing_runs_of_this_scenario": len(runs),
+                   "other_failing_runs": [{"harness_line": l, "observed": oo} for l, oo, _ in runs[1:41]]}
+        if i < 8:
+            payload.update(minimise(binpath, n, int(k), s, fi))
+        rep.violation(f"{n}_{k}_{s}_{FAMILIES[int(fi)]}" + ("" if profile == "dev" else "_" + profile), payload)
+
+
 def main(rep, tier, seed):
+    rng = F.Rng(seed)
     info = F.standard_proof_phase(rep, PROP)
     ok, blog, binpath = F.harness_build("c07")
     if not ok:
         rep.violation("harness_build", {"kind": "harness does not build against /repo", "log": blog[-4000:]}, no_input=True)
         return finish(rep, info, [], 0, tier)
+    citems, coutl, cstats, cnontriv, cbad = caps_phase(rep, binpath, rng.fork("caps"), tier)
+    rep.extra["capacity_correspondence"] = {
+        "what": "Alloc/CapsRun.v (capacity trace of the modelled process) evaluated by coqc vs Processor::verif_capacities() and the counting allocator, after every process call of a script",
+        "evaluations": len(coutl), "distinct_nontrivial": cnontriv, "disagreements": len(cbad),
+        "rule": "non-trivial = process calls from at least two different output nodes, or the graph changed between calls (node/edges added, node removed), or a call other than the first grew a capacity on an unchanged graph",
+        "input_distribution": cstats, "samples": [it["line"][:300] for it in citems[:2] + citems[-2:]]}
+    if cstats.get("later_call_other_node_unchanged_graph_grew"):
+        rep.notes.append(f"NOTE property=C07 reading 'from any node of a graph of that size' is false on the crate as on the model: "
+                         f"{cstats['later_call_other_node_unchanged_graph_grew']} later calls from another node of an unchanged graph grew a capacity "
+                         f"(c07_processor_any_node_refuted; not a violation of the checked reading 'same graph, same node': "
+                         f"{cstats['same_node_repeat_calls_with_heap_traffic']} of {cstats['same_node_repeat_calls']} repeated calls had heap traffic)")
     rc, out, err = F.run_bin(binpath, ["list"])
     names = out[0].split()
     missing = [n for n in ZERO if n not in names]
@@ -90,11 +483,17 @@ def main(rep, tier, seed):
         rep.violation("scenarios", {"kind": "scenario list of the harness and of the check differ", "missing": missing}, no_input=True)
     ks = [1000] if tier == "quick" else [1000, 200000]
     seeds = [seed, seed + 1, seed + 2] if tier == "quick" else [seed + i for i in range(6)]
-    lines = [f"{n} {k} {s}" for n in names for k in ks for s in seeds]
+    unknown = [n for n in names if verdict(n, 1, [0, 0, 0, 0, 0, 0, 0, 0, 0]) == f"unknown scenario {n}"]
+    if unknown:
+        rep.violation("scenarios_unknown", {"kind": "the harness lists scenarios the check has no verdict for", "unknown": unknown}, no_input=True)
+    # every scenario under every value family: the long runs of the thorough tier use 3 seeds (plain) / 2 seeds (others)
+    lines = [f"{n} {k} {s} {fi}" for n in names for k in ks for fi in range(len(FAMILIES))
+             for s in (seeds if k <= 1000 else seeds[:3] if fi == 0 else seeds[:2])]
     rc, outl, err = F.run_bin_parallel(binpath, lines)
     results = []
+    badruns = {}
     for line, o in zip(lines, outl):
-        n, k, s = line.split()
+        n, k, s, fi = line.split()
         try:
             v = [int(t) for t in o.replace("HARNESS-PANIC", "").split()]
         except ValueError:
@@ -102,24 +501,98 @@ def main(rep, tier, seed):
         bad = verdict(n, int(k), v)
         results.append((line, o, bad))
         if bad:
-            rep.violation(f"{n}_{k}_{s}", {"kind": "heap traffic in steady state", "scenario": n, "calls": int(k), "seed": int(s),
-                                          "observed": o, "problem": bad,
-                                          "replay": f"echo '{line}' | harness/target/debug/c07"})
+            badruns.setdefault(n, []).append((line, o, bad))
+    report_bad(rep, binpath, badruns, "dev")
     if len(outl) != len(lines):
         rep.violation("harness_run", {"kind": "harness run incomplete", "stderr": err[-2000:]}, no_input=True)
+    # the same runs on the optimised build (no debug assertions, no overflow checks): the `cfg!(debug_assertions)`
+    # else-arms of the sample types and anything else that only exists there is not reachable in the dev profile
+    rel = {"runs": 0, "bad": 0}
+    if not F.COV:
+        okr, rlog, relpath = F.harness_build("c07", profile="release")
+        if not okr:
+            rep.violation("harness_build_release", {"kind": "harness does not build against /repo (release profile)", "log": rlog[-4000:]}, no_input=True)
+        else:
+            rlines = [l for l in lines if int(l.split()[1]) <= 1000]
+            rc, routl, err = F.run_bin_parallel(relpath, rlines)
+            if len(routl) != len(rlines):
+                rep.violation("harness_run_release", {"kind": "harness run incomplete (release profile)", "stderr": err[-2000:]}, no_input=True)
+            rbad = {}
+            for line, o in zip(rlines, routl):
+                n, k, s, fi = line.split()
+                try:
+                    v = [int(t) for t in o.replace("HARNESS-PANIC", "").split()]
+                except ValueError:
+                    v = [-3]
+                bad = verdict(n, int(k), v)
+                rel["runs"] += 1
+                if bad:
+                    rel["bad"] += 1
+                    rbad.setdefault(n, []).append((line, o, bad))
+            report_bad(rep, relpath, rbad, "release")
+    rep.extra["release_profile_runs"] = rel
     return finish(rep, info, results, len(names), tier)
 
 
 def finish(rep, info, results, nscen, tier):
     th = info.get("theorems", [])
+    # input distribution of the allocator half: runs per value family, witnesses of the branch-targeted scenarios,
+    # and the last region-coverage measurement (tools/coverage_regions.py, committed in docs/coverage/)
+    fam_hist, wit = {}, {}
+    for line, o, bad in results:
+        t = line.split()
+        fam_hist[FAMILIES[int(t[3])]] = fam_hist.get(FAMILIES[int(t[3])], 0) + 1
+        if t[0] in WITNESS:
+            try:
+                v = [int(x) for x in o.split()][3:]
+            except ValueError:
+                continue
+            w = wit.setdefault(t[0], {lab: [None, 0] for lab in WITNESS[t[0]]})
+            for lab, x in zip(WITNESS[t[0]], v):
+                w[lab] = [x if w[lab][0] is None else min(w[lab][0], x), max(w[lab][1], x)]
+    for sc, w in wit.items():
+        if sc.startswith("bus_"):
+            continue
+        for lab, d in w.items():
+            if d[1] == 0:
+                rep.notes.append(f"NOTE property=C07 scenario {sc}: the branch it is aimed at was never taken in this run ({lab})")
+    wit = {sc: {lab: f"{d[0]}..{d[1]} per run" for lab, d in w.items()} for sc, w in wit.items()}
+    regions = {}
+    rp = os.path.join(F.VERIF, "docs", "coverage", "C07_regions.json")
+    if os.path.exists(rp):
+        try:
+            rj = json.load(open(rp))
+            for lab in ("before", "after"):
+                if lab in rj:
+                    regions[lab] = rj[lab]["summary"]
+            if "after" in rj:
+                regions["still_unentered_after"] = rj["after"].get("unentered", {})
+                regions["excluded_unreachable"] = rj["after"].get("excluded", {})
+                regions["never_instantiated_after"] = rj["after"].get("never_instantiated", {})
+                regions["never_instantiated_excluded"] = rj["after"].get("never_instantiated_excluded", {})
+            regions["how"] = ("llvm source-based coverage of the dev-profile harness over one quick run (tools/coverage_regions.py C07; "
+                              "code regions summed over monomorphisations; 'before' = the scenario list as it was before round 3); "
+                              "a measurement recorded when the scenarios were last changed, not recomputed by this run")
+        except Exception as e:
+            regions = {"error": str(e)}
+    rep.extra["input_distribution"] = {
+        "allocator_runs_per_value_family": fam_hist,
+        "allocator_runs_repeated_on_release_build": rep.extra.get("release_profile_runs", {}).get("runs", 0),
+        "value_families": {"plain": "uniform [-1,1] / uniform i16", "dynrange": "segments cycling through levels 1e4 .. 1e-20 and 0 (loud then quiet)",
+                           "edges": "half the draws from finite special values (+-0, +-1, 1+-ulp, subnormals, format extremes)",
+                           "nonfinite": "1/16 NaN / +-inf / +-f64::MAX, 1/4 special values", "ramps": "rise / plateau / fall / silence, alternating sign"},
+        "branch_witnesses": wit,
+        "source_regions_never_entered": regions,
+    }
     cov = {
         "explanation": "Coq theorems (props/C07.v) about storage sizes and vector capacities + counting-allocator observation of %d scenarios; the allocator half is differential observation against the prediction 'zero heap traffic', not proof" % nscen,
         "obligations": max(1, len(th)), "discharged": len(th) if info.get("coq_ok") else 0,
         "checker_cmd": "make -f Makefile.coq props/C07.vo (coqc 8.16.1) + harness/target/debug/c07 under a counting GlobalAlloc",
         "trusted_base": F.TRUSTED_COMMON + ["axioms: none", "allocator observation covers only the enumerated scenarios"],
         "theorems": th,
-        "evaluations": len(results), "distinct_nontrivial": len({r[0].split()[0] for r in results}),
-        "rule": "one evaluation = one scenario x call count x seed; every scenario constructs its objects, makes one warm-up call and then K measured calls with inputs varied by iteration index and PRNG; distinct = distinct scenarios",
+        "evaluations": len(results) + rep.extra.get("capacity_correspondence", {}).get("evaluations", 0),
+        "distinct_nontrivial": len({r[0].split()[0] for r in results}) + rep.extra.get("capacity_correspondence", {}).get("distinct_nontrivial", 0),
+        "rule": "allocator scenarios: one evaluation = one scenario x call count x seed x value family; every scenario constructs its objects, makes one warm-up call and then K measured calls with inputs varied by iteration index and PRNG; distinct = distinct scenarios; plus the capacity correspondence (see capacity_correspondence: its own counts and rule)",
         "samples": [f"{r[0]} -> {r[1]}" for r in results[:3] + results[-6:]],
     }
     return rep.finish("other", cov, ["allocation behaviour is observed, not proved", "Vec growth modelled as (len, cap) with doubling"])
@@ -128,7 +601,21 @@ def finish(rep, info, results, nscen, tier):
 def replay(path):
     j = json.load(open(path))
     ok, blog, binpath = F.harness_build("c07")
-    line = f"{j['scenario']} {j['calls']} {j['seed']}"
+    if "case" in j and isinstance(j["case"], dict) and "ops" in j["case"]:
+        c = j["case"]
+        c["ops"] = [tuple(o) for o in c["ops"]]
+        it = caps_build(c)
+        rc, out, _ = F.run_bin(binpath, [it["line"]])
+        _, model = F.coq_eval("c07caps", HEADER, f"run_case {it['coq']}")
+        print("case:", it["line"])
+        print("implementation:", out)
+        print("model:", model[-2000:])
+        o, bad, errs = F.correspond(binpath, [it], HEADER, CHECK, "c07caps_replay")
+        print("AGREE" if not bad and not errs else "DISAGREE")
+        return 1 if bad or errs else 0
+    if j.get("profile") == "release":
+        ok, blog, binpath = F.harness_build("c07", profile="release")
+    line = f"{j['scenario']} {j['calls']} {j['seed']} {j.get('family', 0)}"
     rc, out, err = F.run_bin(binpath, [line])
     print(line, "->", out)
     v = [int(t) for t in out[0].split()]
